@@ -161,8 +161,8 @@ impl Monitor for C17 {
     }
     fn cases(&self, tier: Tier) -> u64 {
         match tier {
-            Tier::Quick => 16_000,
-            Tier::Thorough => 500_000,
+            Tier::Quick => 120_000,
+            Tier::Thorough => 2_000_000,
         }
     }
     fn required_counters(&self) -> Vec<&'static str> {
